@@ -1134,6 +1134,10 @@ func TestC20(t *testing.T) {
 		}
 		kC20.Run(t, ev, perShard(pick(300, 12000)))
 		kC20GCS.Run(t, ev, perShard(pick(60, 6000)))
+		if shard == 0 {
+			// one large filter (past 2^14 elements) queried for the first time by all goroutines at once
+			kC20GCS.One(ev, c20GCS{D: gcsData{Key: HexBytes(bytes.Repeat([]byte{0x5e}, 16)), P: 19, M: 784931, N: 20000, Seed: uint32(seedEnv) + 31}, G: 8, Fresh: 1})
+		}
 		kC20Lock.Run(t, ev, perShard(pick(24, 400)))
 		ev.requireClasses("C20:overlapping-calls-observed", "C20:linearizable", "C20:with-reload-or-unload", "C20:with-matchtx",
 			"C20:goroutines=32", "C20:gcs-concurrent-queries", "C20:cold-message-invariant-checked")
